@@ -29,7 +29,15 @@ def _hook(ev, args):
             elif mode is None and isinstance(flags, int) and flags & (os.O_WRONLY | os.O_RDWR | os.O_CREAT | os.O_TRUNC | os.O_APPEND):
                 AUDIT["events"].append(("open-for-write", os.fsdecode(path)))
         elif ev in _EVENTS:
-            AUDIT["events"].append((ev, os.fsdecode(args[0])))
+            path = os.fsdecode(args[0])
+            # removals made relative to a directory descriptor (shutil.rmtree does that): name the real location
+            dir_fd = {"os.remove": 1, "os.rmdir": 1, "os.mkdir": 2}.get(ev)
+            if dir_fd is not None and len(args) > dir_fd and isinstance(args[dir_fd], int) and args[dir_fd] >= 0 and not os.path.isabs(path):
+                try:
+                    path = os.path.join(os.readlink(f"/proc/self/fd/{args[dir_fd]}"), path)
+                except OSError:
+                    pass
+            AUDIT["events"].append((ev, path))
             if ev in ("os.rename", "os.link", "os.symlink", "shutil.copyfile", "shutil.copytree", "shutil.move") and len(args) > 1:
                 AUDIT["events"].append((ev + ":dst", os.fsdecode(args[1])))
     except Exception:
